@@ -309,14 +309,16 @@ namespace detail
 	{
 		GLM_STATIC_ASSERT(std::numeric_limits<T>::is_integer, "'bitfieldReverse' only accept integer values");
 
-		vec<L, T, Q> x(v);
-		x = detail::compute_bitfieldReverseStep<L, T, Q, detail::is_aligned<Q>::value, sizeof(T) * 8>=  2>::call(x, static_cast<T>(0x5555555555555555ull), static_cast<T>( 1));
-		x = detail::compute_bitfieldReverseStep<L, T, Q, detail::is_aligned<Q>::value, sizeof(T) * 8>=  4>::call(x, static_cast<T>(0x3333333333333333ull), static_cast<T>( 2));
-		x = detail::compute_bitfieldReverseStep<L, T, Q, detail::is_aligned<Q>::value, sizeof(T) * 8>=  8>::call(x, static_cast<T>(0x0F0F0F0F0F0F0F0Full), static_cast<T>( 4));
-		x = detail::compute_bitfieldReverseStep<L, T, Q, detail::is_aligned<Q>::value, sizeof(T) * 8>= 16>::call(x, static_cast<T>(0x00FF00FF00FF00FFull), static_cast<T>( 8));
-		x = detail::compute_bitfieldReverseStep<L, T, Q, detail::is_aligned<Q>::value, sizeof(T) * 8>= 32>::call(x, static_cast<T>(0x0000FFFF0000FFFFull), static_cast<T>(16));
-		x = detail::compute_bitfieldReverseStep<L, T, Q, detail::is_aligned<Q>::value, sizeof(T) * 8>= 64>::call(x, static_cast<T>(0x00000000FFFFFFFFull), static_cast<T>(32));
-		return x;
+		// Work on the unsigned type so that right shifts never smear the sign bit
+		typedef typename detail::make_unsigned<T>::type UT;
+		vec<L, UT, Q> x(v);
+		x = detail::compute_bitfieldReverseStep<L, UT, Q, detail::is_aligned<Q>::value, sizeof(T) * 8>=  2>::call(x, static_cast<UT>(0x5555555555555555ull), static_cast<UT>( 1));
+		x = detail::compute_bitfieldReverseStep<L, UT, Q, detail::is_aligned<Q>::value, sizeof(T) * 8>=  4>::call(x, static_cast<UT>(0x3333333333333333ull), static_cast<UT>( 2));
+		x = detail::compute_bitfieldReverseStep<L, UT, Q, detail::is_aligned<Q>::value, sizeof(T) * 8>=  8>::call(x, static_cast<UT>(0x0F0F0F0F0F0F0F0Full), static_cast<UT>( 4));
+		x = detail::compute_bitfieldReverseStep<L, UT, Q, detail::is_aligned<Q>::value, sizeof(T) * 8>= 16>::call(x, static_cast<UT>(0x00FF00FF00FF00FFull), static_cast<UT>( 8));
+		x = detail::compute_bitfieldReverseStep<L, UT, Q, detail::is_aligned<Q>::value, sizeof(T) * 8>= 32>::call(x, static_cast<UT>(0x0000FFFF0000FFFFull), static_cast<UT>(16));
+		x = detail::compute_bitfieldReverseStep<L, UT, Q, detail::is_aligned<Q>::value, sizeof(T) * 8>= 64>::call(x, static_cast<UT>(0x00000000FFFFFFFFull), static_cast<UT>(32));
+		return vec<L, T, Q>(x);
 	}
 
 #		if GLM_COMPILER & GLM_COMPILER_VC
